@@ -18,6 +18,7 @@ open Yorkie.Driver
 def engines : List (String × Engine) := [
   ("time", TimeEngine.engine),
   ("crdt", CrdtEngine.engine),
+  ("crdtpre", CrdtEngine.engine),
   ("docupd", DocUpdEngine.engine),
   ("store", ChangeStoreEngine.engine),
   ("storex", ChangeStoreEngine.engine),
